@@ -7,6 +7,10 @@ pub fn write_to_stdout(_buf: &[u8]) -> Xresult {
 
 #[cfg(feature = "stdio")]
 pub fn write_to_stdout(buf: &[u8]) -> Xresult {
+    #[cfg(feature = "verif_hooks")]
+    if let Some(res) = verif_env::stdout(buf) {
+        return res;
+    }
     use std::io::*;
     let stdout = std::io::stdout();
     let mut h = stdout.lock();
@@ -33,6 +37,10 @@ pub mod fs_overlay {
 
     pub fn exec_piped(path: &str, buf: &[u8]) -> Xresult1<Vec<u8>>
     {
+        #[cfg(feature = "verif_hooks")]
+        if let Some(res) = verif_env::exec_piped(path, buf) {
+            return res;
+        }
         use std::process::{Command, Stdio};
         let mut cat = Command::new(path)
             .stdin(Stdio::piped())
@@ -48,6 +56,10 @@ pub mod fs_overlay {
     }
 
     pub fn read_all(path: &str) -> Xresult1<Vec<u8>> {
+        #[cfg(feature = "verif_hooks")]
+        if let Some(res) = verif_env::read_all(path) {
+            return res;
+        }
         let mut file = std::fs::File::open(path).map_err(|e| ioerror_with_path(path, &e))?;
         let mut buf = Vec::new();
         file.read_to_end(&mut buf)
@@ -75,10 +87,18 @@ pub mod fs_overlay {
     }
 
     pub fn read_source_file(path: &str) -> Xresult1<String> {
+        #[cfg(feature = "verif_hooks")]
+        if let Some(res) = verif_env::read_source_file(path) {
+            return res;
+        }
         std::fs::read_to_string(path).map_err(|e| ioerror_with_path(path, &e))
     }
     
     pub fn write_all(path: &Xstr, s: &Xbitstr) -> Xresult {
+        #[cfg(feature = "verif_hooks")]
+        if let Some(res) = verif_env::write_all(path, s) {
+            return res;
+        }
         let open = || {
             OpenOptions::new()
                 .create(true)
@@ -129,5 +149,146 @@ pub mod fs_overlay {
 
     pub fn read_source_file(path: &str) -> Xresult1<String> {
         no_filesystem_error!(path)
+    }
+}
+
+/// Verification hook (feature `verif_hooks`): a simulated environment. While one is installed on
+/// the current thread, stdout, files, child processes and entropy come from it instead of the
+/// operating system. Nothing is installed by default, so behaviour is unchanged.
+#[cfg(feature = "verif_hooks")]
+pub mod verif_env {
+    use crate::prelude::*;
+    use std::cell::RefCell;
+    use std::collections::BTreeMap;
+
+    #[derive(Default, Clone, Debug)]
+    pub struct Env {
+        /// everything written to the process's stdout
+        pub stdout: Vec<u8>,
+        /// fail every stdout write once this many bytes have been written
+        pub stdout_fail_after: Option<usize>,
+        pub stdout_writes: usize,
+        pub stdout_failures: usize,
+        /// virtual files: content, or the reason opening / reading fails
+        pub files: BTreeMap<String, Result<Vec<u8>, String>>,
+        pub file_reads: usize,
+        pub file_failures: usize,
+        /// fail write-all with this reason
+        pub write_fail: Option<String>,
+        pub writes: Vec<(String, Vec<u8>)>,
+        /// output of the stub child process, or the reason spawning fails
+        pub exec_result: Option<Result<Vec<u8>, String>>,
+        pub execs: usize,
+        /// state of the entropy stream (splitmix64)
+        pub entropy: u64,
+        pub entropy_draws: usize,
+    }
+
+    thread_local! {
+        static ENV: RefCell<Option<Env>> = RefCell::new(None);
+    }
+
+    pub fn install(env: Env) {
+        ENV.with(|e| *e.borrow_mut() = Some(env));
+    }
+
+    pub fn uninstall() -> Option<Env> {
+        ENV.with(|e| e.borrow_mut().take())
+    }
+
+    pub fn with<T>(f: impl FnOnce(&mut Env) -> T) -> Option<T> {
+        ENV.with(|e| e.borrow_mut().as_mut().map(f))
+    }
+
+    fn ioerr(name: &str, reason: &str) -> Xerr {
+        Xerr::IOError { filename: Xstr::from(name), reason: Xstr::from(reason) }
+    }
+
+    pub fn stdout(buf: &[u8]) -> Option<Xresult> {
+        with(|env| {
+            env.stdout_writes += 1;
+            if let Some(n) = env.stdout_fail_after {
+                if env.stdout.len() + buf.len() > n {
+                    // a short write followed by an error, like a closed pipe
+                    let room = n.saturating_sub(env.stdout.len());
+                    env.stdout.extend_from_slice(&buf[..room.min(buf.len())]);
+                    env.stdout_failures += 1;
+                    return Err(ioerr("stdout", "simulated: broken pipe"));
+                }
+            }
+            env.stdout.extend_from_slice(buf);
+            OK
+        })
+    }
+
+    fn file_bytes(env: &mut Env, path: &str) -> Xresult1<Vec<u8>> {
+        env.file_reads += 1;
+        match env.files.get(path) {
+            Some(Ok(data)) => Ok(data.clone()),
+            Some(Err(reason)) => {
+                env.file_failures += 1;
+                Err(ioerr(path, reason))
+            }
+            None => {
+                env.file_failures += 1;
+                Err(ioerr(path, "simulated: no such file"))
+            }
+        }
+    }
+
+    pub fn read_all(path: &str) -> Option<Xresult1<Vec<u8>>> {
+        with(|env| file_bytes(env, path))
+    }
+
+    pub fn read_source_file(path: &str) -> Option<Xresult1<String>> {
+        with(|env| {
+            let data = file_bytes(env, path)?;
+            String::from_utf8(data).map_err(|_| {
+                env.file_failures += 1;
+                ioerr(path, "stream did not contain valid UTF-8")
+            })
+        })
+    }
+
+    pub fn write_all(path: &str, s: &Xbitstr) -> Option<Xresult> {
+        with(|env| {
+            if let Some(reason) = &env.write_fail {
+                return Err(ioerr(path, reason));
+            }
+            let data: Vec<u8> = s.iter8().map(|x| x.0).collect();
+            env.writes.push((path.to_string(), data));
+            OK
+        })
+    }
+
+    pub fn exec_piped(path: &str, buf: &[u8]) -> Option<Xresult1<Vec<u8>>> {
+        with(|env| {
+            env.execs += 1;
+            match &env.exec_result {
+                Some(Ok(out)) => {
+                    let mut v = out.clone();
+                    v.extend_from_slice(buf);
+                    Ok(v)
+                }
+                Some(Err(reason)) => Err(ioerr(path, reason)),
+                None => Err(ioerr(path, "simulated: no such program")),
+            }
+        })
+    }
+
+    /// overwrite `buf` with simulated entropy; returns false (buf untouched) if nothing is installed
+    pub fn entropy(buf: &mut [u8]) -> bool {
+        with(|env| {
+            for b in buf.iter_mut() {
+                env.entropy = env.entropy.wrapping_add(0x9E3779B97F4A7C15);
+                let mut z = env.entropy;
+                z = (z ^ (z >> 30)).wrapping_mul(0xBF58476D1CE4E5B9);
+                z = (z ^ (z >> 27)).wrapping_mul(0x94D049BB133111EB);
+                *b = (z ^ (z >> 31)) as u8;
+                env.entropy_draws += 1;
+            }
+            true
+        })
+        .unwrap_or(false)
     }
 }
